@@ -22,7 +22,7 @@ class C18(InterpProp):
 
     def knobs(self, rnd, tier):
         return gen.Knobs(contracts=self.with_contracts, p_history=0.6, sends=0.4, nested_targets=0.5,
-                         max_states=rnd.choice([6, 10, 14]))
+                         max_states=rnd.choice([6, 10, 14]), history_focus=0.6)
 
     def gen_case(self, rnd, tier):
         kn = self.knobs(rnd, tier)
